@@ -34,7 +34,7 @@ const epoch2024 = 1704067200
 
 var profilesFor = map[string][]string{
 	"C01": {"consensus", "consensus", "consensus", "consensus", "retarget", "votes"},
-	"C02": {"selection"},
+	"C02": {"selection", "selection", "selection", "selection", "retarget"},
 	"C03": {"utxo"},
 	"C04": {"crash"},
 	"C09": {"retarget"},
